@@ -46,7 +46,8 @@ def run(chk, repo, tier):
     chk.depends_on += ["C07", "C13"]
     w = World(repo)
     m = repo.module(G2P)
-    P = var("P", "point")
+    # a projective triple of unknown field elements (any representative, on or off the curve)
+    P = (var("Px", "field"), var("Py", "field"), var("Pz", "field"))
     f = repo.func(f"{G2P}.subgroup_check")
     mul = repo.resolve_binding(m, "multiply")
     inf = repo.resolve_binding(m, "is_inf")
@@ -54,8 +55,8 @@ def run(chk, repo, tier):
     chk.ob("C17.R1", f.qualname, "multiply / is_inf resolve to the optimized BLS12-381 curve module", bool(ok_res),
            f"multiply -> {mul[1].qualname if mul else None}, is_inf -> {inf[1].qualname if inf else None}", f.where)
     from ..interp import enumerate_paths
-    want = Term("is_inf", (Term("multiply", (P, BLS["r"]), "point"),), "bool")
-    infP = Term("is_inf", (P,), "bool")
+    want = Term("is_inf", (Term("multiply", (_hashable(P), BLS["r"]), "point"),), "bool")
+    infP = Term("is_inf", (_hashable(P),), "bool")
     spaths = enumerate_paths(w, lambda it: it.call_func(f, [P], {}),
                              summaries={mul[1].qualname: opaque("multiply", "point"), inf[1].qualname: opaque("is_inf", "bool")})
     bad = []
@@ -93,7 +94,7 @@ def run(chk, repo, tier):
     for fn, const, nm in (("multiply_clear_cofactor_G1", BLS["h_eff_g1"], "H_EFF_G1"), ("multiply_clear_cofactor_G2", BLS["h_eff_g2"], "H_EFF_G2")):
         ff = repo.func(f"{CC}.{fn}")
         cpaths = enumerate_paths(w, lambda it, ff=ff: it.call_func(ff, [P], {}), summaries=csumm)
-        wantc = Term("multiply", (P, const), "point")
+        wantc = Term("multiply", (_hashable(P), const), "point")
         badc = []
         for pth in cpaths:
             pd = " ".join(pth.branch_lines()) or "(straight line)"
